@@ -19,6 +19,14 @@ type tcpipchecksum struct {
 	pseudoheader tcpipPseudoHeader
 }
 
+// headerAndPayload returns contents followed by payload in a slice of its own.  A plain
+// append(contents, payload...) writes into the packet's buffer whenever contents has spare
+// capacity - which it has for every decoded layer - so read-only callers such as
+// VerifyChecksum must not use it.
+func headerAndPayload(contents, payload []byte) []byte {
+	return append(contents[:len(contents):len(contents)], payload...)
+}
+
 type tcpipPseudoHeader interface {
 	pseudoheaderChecksum() (uint32, error)
 }
